@@ -481,7 +481,9 @@ class MarkdownNormalizer(Renderer):
         fence_len = max(original_fence_len, min_fence_len)
         fence = fence_char * fence_len
 
-        lines = [f"{self._prefix}{fence}{lang_text}"]
+        # An info string that starts with the fence character must not extend the fence.
+        fence_sep = " " if lang_text.startswith(fence_char) else ""
+        lines = [f"{self._prefix}{fence}{fence_sep}{lang_text}"]
         # Don't add prefix to empty lines to avoid trailing whitespace.
         # Use rstrip() to preserve structural prefixes like ">" for blockquotes.
         empty_line_prefix = self._second_prefix.rstrip()
